@@ -142,9 +142,22 @@ def run(chk):
     tb = repo.mod("pipe.table")
     ga = tb.func("Table.__getattr__")
     gi = tb.func("Table.__getitem__")
-    chk.ob("R2", tb, ga, "Table.__getattr__: Col(name, self._ast, cache uuid, dtype, ftype) of the *visible* column", "col = self._cache.cols[self._cache.name_to_uuid[name]]" in norm(ga) and "return Col(name, self._ast, col._uuid, col._dtype, col._ftype)" in norm(ga),
+    def _col_ctor(fn):
+        """the Col(..) constructor call returned by fn"""
+        for r in ast.walk(fn):
+            if isinstance(r, ast.Return) and isinstance(r.value, ast.Call) and dotted(r.value.func) == "Col" and len(r.value.args) >= 3:
+                return r.value
+        return None
+
+    cc = _col_ctor(ga)
+    # Col(name, self._ast, <uuid looked up by the *name* in name_to_uuid>, ..): the identity comes from the cache's name map
+    good_ga = cc is not None and norm(cc.args[0]) == "name" and norm(cc.args[1]) == "self._ast" and "name_to_uuid[name]" in norm(cc.args[2]).replace(" ", "") and "_uuid" in norm(cc.args[2])
+    chk.ob("R2", tb, ga, "Table.__getattr__: Col(name, self._ast, cache uuid, dtype, ftype) of the *visible* column", good_ga,
            "t.x no longer hands out the identity recorded in the cache")  # fmt: skip
-    chk.ob("R2", tb, gi, "Table.__getitem__(Col): same identity, current name", "self._cache.uuid_to_name[key._uuid]" in norm(gi) and "key._uuid" in norm(gi).split("return Col(")[1][:120],
+    cc = _col_ctor(gi)
+    # Col(<current name looked up by key._uuid in uuid_to_name>, self._ast, key._uuid, ..)
+    good_gi = cc is not None and "uuid_to_name[key._uuid]" in norm(cc.args[0]).replace(" ", "") and norm(cc.args[2]) == "key._uuid"
+    chk.ob("R2", tb, gi, "Table.__getitem__(Col): same identity, current name", good_gi,
            "derived[t.x] no longer reports the current name under the same identity")  # fmt: skip
 
     # ---- R3
